@@ -1432,7 +1432,7 @@ func runC10mk(ctx *Ctx) *Result {
 		floors := map[string]int{"mt_with_expression": 20000, "mt_with_rest": 1000, "uc_with_comment": 20000, "uc_input_with_escaped_hash": 5000,
 			"varassign_matched": 10000, "varassign_matched_commented": 300, "varalign_initial_ok": 10000, "varalign_with_continuation": 300,
 			"expr_found": 20000, "rawalign_ok": 500, "rawalign_assert": 500,
-			"ml_lines_multiline": 50000, "ml_multiline_matched": 2000, "ml_multiline_matched_commented": 100, "ml_multiline_rejected_by_guard": 1000,
+			"ml_lines_multiline": 50000, "ml_multiline_matched": 2000, "ml_multiline_matched_commented": 100, "ml_multiline_rejected_by_guard": 1000, "ml_multiline_rejected_by_guard_despite_equals_in_first_raw_line": 100,
 			"ml_multiline_equals_only_in_continuation": 1000, "ml_multiline_break_inside_expression": 300, "ml_three_raw_lines": 5000}
 		for _, k := range []string{"simple", "ts", "D/U", "M/N", "S/C", "!cmd!", "@loop@", "[index]", "?:", "::=", "sysv", "indirect", "!text!", "empty", "invalid"} {
 			floors["grammar_kind_"+k] = 300
